@@ -237,7 +237,7 @@ PROPS = {
         'must_observe': ['programs_compared', 'scope_dump_comparisons', 'map_loops_checked'],
     },
     'C04': {
-        'scale': {'quick': 4, 'thorough': 30},
+        'scale': {'quick': 2, 'thorough': 15},
         'level': 'exploration',
         'technique': 'reference-model monitor for inheritance: unique sentinel tokens in every block body make the rendered text the resolution trace; model resolver (most-derived definition, super() to the nearest defining ancestor) vs real renders and render_block',
         'claim': 'Chains of 1-8 templates; per level a random subset of 6 block names nested up to 3 deep, inside filter sections and set-blocks, child blocks introduced inside overridden blocks, ancestors that skip a block, super() at several levels, super() without any ancestor definition (must be an error), '
